@@ -242,6 +242,10 @@ func (c *Ctx) handleViolation(job SymJob, v gosym.Violation, key string) {
 	if !job.noNativeReplay {
 		status, msg = NativeReplay(&rf, path)
 	}
+	if status == "reproduced" && strings.Contains(msg, "(vacuous)") {
+		// the native run tripped over a vacuity guard of the harness, not over the property
+		status = "not-confirmed"
+	}
 	rf.Native = status + ": " + msg
 	WriteJSON(path, rf)
 	switch status {
